@@ -2698,3 +2698,267 @@ Proof.
   eexists. exists 0, ([97%N], false), ([98%N], false), [97%N].
   split; [vm_compute; reflexivity|]. split; [discriminate|]. vm_compute. repeat split; auto.
 Qed.
+
+(* ---- the executable violation predicate IS the declarative property ------------------------------ *)
+
+
+Lemma pending_calls_app a : forall b p, pending_calls (a ++ b) p = pending_calls b (pending_calls a p).
+Proof.
+  induction a as [|e r IH]; intros b p; cbn [app pending_calls]; [reflexivity|]. destruct e; apply IH.
+Qed.
+
+Lemma no_call_snoc t e : no_call t = true -> is_call e = false -> no_call (t ++ [e]) = true.
+Proof. intros H He. unfold no_call in *. rewrite forallb_app, H. cbn. rewrite He. reflexivity. Qed.
+
+Lemma nostart_snoc q t e :
+  forallb (fun e => negb (starts q e)) t = true -> starts q e = false ->
+  forallb (fun e => negb (starts q e)) (t ++ [e]) = true.
+Proof. intros H He. rewrite forallb_app, H. cbn. rewrite He. reflexivity. Qed.
+
+Definition cand_at (pre : list ev) (u : nat) (k : ks) : Prop :=
+  exists t1 t2, pre = t1 ++ ECall u k :: t2 /\ pending_calls t1 [] = [] /\ no_call t2 = true.
+Definition est_at (pre : list ev) (k : ks) : Prop :=
+  exists t1 u t2 t3, pre = t1 ++ ECall u k :: t2 ++ ERet u true :: t3 /\
+                     pending_calls t1 [] = [] /\ no_call t2 = true /\ no_call t3 = true.
+Definition open_at (pre : list ev) (q : nat) (k : ks) : Prop :=
+  exists t1 u t2 t3 t4, pre = t1 ++ ECall u k :: t2 ++ ERet u true :: t3 ++ EStart q :: t4 /\
+                        pending_calls t1 [] = [] /\ no_call t2 = true /\ no_call t3 = true /\ no_call t4 = true /\
+                        forallb (fun e => negb (starts q e)) t4 = true.
+
+Record PInv (pre : list ev) (p : pv) : Prop := mkP {
+  p_pend : pv_pend p = pending_calls pre [];
+  p_cand : forall u k, pv_cand p = Some (u, k) -> cand_at pre u k;
+  p_est : forall k, pv_est p = Some k -> est_at pre k;
+  p_open : forall q k, pv_lookup q (pv_open p) = Some k -> open_at pre q k
+}.
+
+Lemma app_snoc_assoc {A} (a : list A) x b e : (a ++ x :: b) ++ [e] = a ++ x :: (b ++ [e]).
+Proof. rewrite <- app_assoc. reflexivity. Qed.
+
+Lemma cand_ext pre u k e : cand_at pre u k -> is_call e = false -> cand_at (pre ++ [e]) u k.
+Proof.
+  intros [t1 [t2 [-> [H1 H2]]]] He. exists t1, (t2 ++ [e]). split; [apply app_snoc_assoc|].
+  split; [exact H1|apply no_call_snoc; assumption].
+Qed.
+Lemma est_ext pre k e : est_at pre k -> is_call e = false -> est_at (pre ++ [e]) k.
+Proof.
+  intros [t1 [u [t2 [t3 [-> [H1 [H2 H3]]]]]]] He. exists t1, u, t2, (t3 ++ [e]).
+  split; [rewrite app_snoc_assoc; f_equal; f_equal; apply app_snoc_assoc|].
+  repeat split; try assumption. apply no_call_snoc; assumption.
+Qed.
+Lemma open_ext pre q k e : open_at pre q k -> is_call e = false -> starts q e = false -> open_at (pre ++ [e]) q k.
+Proof.
+  intros [t1 [u [t2 [t3 [t4 [-> [H1 [H2 [H3 [H4 H5]]]]]]]]]] He Hs. exists t1, u, t2, t3, (t4 ++ [e]).
+  split; [rewrite app_snoc_assoc; f_equal; f_equal; rewrite app_snoc_assoc; f_equal; f_equal; apply app_snoc_assoc|].
+  repeat split; try assumption; [apply no_call_snoc; assumption|apply nostart_snoc; assumption].
+Qed.
+
+Lemma PInv_init : PInv [] pv_init.
+Proof. constructor; cbn; intros; try discriminate; reflexivity. Qed.
+
+Lemma PInv_step pre p e p' : PInv pre p -> pv_step p e = Some p' -> PInv (pre ++ [e]) p'.
+Proof.
+  intros P H. destruct e as [u k|u ok|q|q x]; cbn [pv_step] in H.
+  - injection H as <-. constructor; cbn [pv_pend pv_cand pv_est pv_open].
+    + rewrite pending_calls_app. cbn [pending_calls]. rewrite (p_pend _ _ P). reflexivity.
+    + intros u0 k0 Hc. destruct (pv_pend p) eqn:E; [|discriminate]. injection Hc as <- <-.
+      exists pre, []. split; [reflexivity|]. split; [rewrite <- (p_pend _ _ P); exact E|reflexivity].
+    + discriminate.
+    + intros q k0 Hq. discriminate.
+  - assert (Hpend : filter (fun x => negb (Nat.eqb x u)) (pv_pend p) = pending_calls (pre ++ [ERet u ok]) []).
+    { rewrite pending_calls_app. cbn [pending_calls]. rewrite (p_pend _ _ P). reflexivity. }
+    assert (Hopen : forall q k, pv_lookup q (pv_open p) = Some k -> open_at (pre ++ [ERet u ok]) q k).
+    { intros q k Hq. apply open_ext; [apply (p_open _ _ P), Hq|reflexivity|reflexivity]. }
+    destruct (pv_cand p) as [[u' k']|] eqn:C.
+    + destruct (Nat.eqb u' u) eqn:Eu; injection H as <-; constructor; cbn [pv_pend pv_cand pv_est pv_open]; try exact Hpend; try exact Hopen.
+      * discriminate.
+      * intros k0 Hk. destruct ok; [|discriminate]. injection Hk as <-. apply Nat.eqb_eq in Eu. subst u'.
+        destruct (p_cand _ _ P u k' C) as [t1 [t2 [-> [H1 H2]]]]. exists t1, u, t2, [].
+        split; [apply app_snoc_assoc|]. repeat split; assumption.
+      * intros u0 k0 Hc. injection Hc as <- <-. apply cand_ext; [apply (p_cand _ _ P), C|reflexivity].
+      * intros k0 Hk. apply est_ext; [apply (p_est _ _ P), Hk|reflexivity].
+    + injection H as <-. constructor; cbn [pv_pend pv_cand pv_est pv_open]; try exact Hpend; try exact Hopen.
+      * discriminate.
+      * intros k0 Hk. apply est_ext; [apply (p_est _ _ P), Hk|reflexivity].
+  - injection H as <-. constructor; cbn [pv_pend pv_cand pv_est pv_open].
+    + rewrite pending_calls_app. cbn [pending_calls]. apply (p_pend _ _ P).
+    + intros u k Hc. apply cand_ext; [apply (p_cand _ _ P), Hc|reflexivity].
+    + intros k Hk. apply est_ext; [apply (p_est _ _ P), Hk|reflexivity].
+    + intros q0 k0 Hq.
+      assert (Hother : Nat.eqb q0 q = false -> pv_lookup q0 (pv_open p) = Some k0 -> open_at (pre ++ [EStart q]) q0 k0).
+      { intros Hne Hl. apply open_ext; [apply (p_open _ _ P), Hl|reflexivity|cbn [starts]; exact Hne]. }
+      destruct (pv_est p) as [k|] eqn:E.
+      * cbn [pv_lookup] in Hq. destruct (Nat.eqb q0 q) eqn:Eq.
+        -- injection Hq as <-. apply Nat.eqb_eq in Eq. subst q0.
+           destruct (p_est _ _ P k E) as [t1 [u [t2 [t3 [-> [H1 [H2 H3]]]]]]]. exists t1, u, t2, t3, [].
+           split; [rewrite app_snoc_assoc; f_equal; f_equal; apply app_snoc_assoc|]. repeat split; assumption.
+        -- rewrite pv_lookup_filter, Eq in Hq. apply Hother; [reflexivity|exact Hq].
+      * rewrite pv_lookup_filter in Hq. destruct (Nat.eqb q0 q) eqn:Eq; [discriminate|]. apply Hother; [reflexivity|exact Hq].
+  - assert (P' : PInv (pre ++ [EFrame q x]) p).
+    { constructor.
+      - rewrite pending_calls_app. cbn [pending_calls]. apply (p_pend _ _ P).
+      - intros u k Hc. apply cand_ext; [apply (p_cand _ _ P), Hc|reflexivity].
+      - intros k Hk. apply est_ext; [apply (p_est _ _ P), Hk|reflexivity].
+      - intros q0 k0 Hq. apply open_ext; [apply (p_open _ _ P), Hq|reflexivity|reflexivity]. }
+    destruct (pv_lookup q (pv_open p)) as [k|]; [destruct (oname_eqb x (Some (canon k))); [|discriminate]|];
+      injection H as <-; exact P'.
+Qed.
+
+Lemma viol_decl_gen rest : forall pre p, PInv pre p -> pv_run p rest = None -> decl_viol (pre ++ rest).
+Proof.
+  induction rest as [|e r IH]; intros pre p P H; cbn [pv_run] in H; [discriminate|].
+  destruct (pv_step p e) as [p'|] eqn:E.
+  - replace (pre ++ e :: r) with ((pre ++ [e]) ++ r) by (rewrite <- app_assoc; reflexivity).
+    apply (IH _ p'); [eapply PInv_step; eassumption|exact H].
+  - destruct e as [u k|u ok|q|q x]; cbn [pv_step] in E; try discriminate.
+    + destruct (pv_cand p) as [[u' k']|]; [destruct (Nat.eqb u' u)|]; discriminate.
+    + destruct (pv_lookup q (pv_open p)) as [k|] eqn:L; [|discriminate].
+      destruct (oname_eqb x (Some (canon k))) eqn:Ex; [discriminate|].
+      destruct (p_open _ _ P q k L) as [t1 [u [t2 [t3 [t4 [-> [H1 [H2 [H3 [H4 H5]]]]]]]]]].
+      exists t1, u, k, t2, t3, q, t4, x, r. split.
+      * rewrite <- !app_assoc. cbn [app]. f_equal. f_equal. rewrite <- !app_assoc. cbn [app]. f_equal. f_equal.
+        rewrite <- !app_assoc. reflexivity.
+      * repeat split; try assumption. intros Hx. rewrite Hx in Ex.
+        assert (oname_eqb (Some (canon k)) (Some (canon k)) = true) by (apply oname_eqb_eq; reflexivity). congruence.
+Qed.
+
+(* every `viol` of a scenario rests on the declarative property failing *)
+Lemma prop_violb_sound tr : prop_violb tr = true -> decl_viol tr.
+Proof.
+  unfold prop_violb. intros H. destruct (pv_run pv_init tr) eqn:E; [discriminate|].
+  apply (viol_decl_gen tr [] pv_init PInv_init E).
+Qed.
+
+(* ---- the converse, for traces in which the call does not "return twice" ---------------------- *)
+Lemma pv_run_app a : forall p b,
+  pv_run p (a ++ b) = match pv_run p a with Some p' => pv_run p' b | None => None end.
+Proof.
+  induction a as [|e r IH]; intros p b; cbn [app pv_run]; [reflexivity|].
+  destruct (pv_step p e); [apply IH|reflexivity].
+Qed.
+
+Lemma pv_run_pend t : forall p p', pv_run p t = Some p' -> pv_pend p' = pending_calls t (pv_pend p).
+Proof.
+  induction t as [|e r IH]; intros p p' H; cbn [pv_run pending_calls] in *; [injection H as <-; reflexivity|].
+  destruct (pv_step p e) as [p1|] eqn:E; [|discriminate]. rewrite (IH _ _ H).
+  destruct e as [u k|u ok|q|q x]; cbn [pv_step] in E.
+  - injection E as <-. reflexivity.
+  - destruct (pv_cand p) as [[u' k']|]; [destruct (Nat.eqb u' u)|]; injection E as <-; reflexivity.
+  - injection E as <-. reflexivity.
+  - destruct (pv_lookup q (pv_open p)); [destruct (oname_eqb x (Some (canon k)))|]; try discriminate; injection E as <-; reflexivity.
+Qed.
+
+Lemma phase2 t u k : forall p,
+  no_call t = true -> no_ret u t = true ->
+  pv_cand p = Some (u, k) -> pv_est p = None -> pv_open p = [] ->
+  pv_run p t = None \/ exists p', pv_run p t = Some p' /\ pv_cand p' = Some (u, k) /\ pv_est p' = None /\ pv_open p' = [].
+Proof.
+  induction t as [|e r IH]; intros p Hn Hr Hc He Ho; cbn [pv_run].
+  - right. exists p. repeat split; assumption.
+  - cbn [no_call no_ret forallb] in Hn, Hr. apply andb_true_iff in Hn. destruct Hn as [Hn1 Hn]. apply andb_true_iff in Hr. destruct Hr as [Hr1 Hr].
+    destruct e as [u0 k0|u0 ok|q|q x]; cbn [pv_step is_call negb] in *; try discriminate.
+    + rewrite Hc. apply negb_true_iff in Hr1. rewrite Nat.eqb_sym in Hr1. rewrite Hr1.
+      apply IH; try assumption; cbn [pv_cand pv_est pv_open]; try reflexivity; assumption.
+    + rewrite He, Ho. cbn [filter]. apply IH; try assumption; cbn [pv_cand pv_est pv_open]; try reflexivity; assumption.
+    + rewrite Ho. cbn [pv_lookup]. apply IH; assumption.
+Qed.
+
+Lemma phase3 t k : forall p,
+  no_call t = true -> pv_cand p = None -> pv_est p = Some k ->
+  pv_run p t = None \/ exists p', pv_run p t = Some p' /\ pv_cand p' = None /\ pv_est p' = Some k.
+Proof.
+  induction t as [|e r IH]; intros p Hn Hc He; cbn [pv_run].
+  - right. exists p. repeat split; assumption.
+  - cbn [no_call forallb] in Hn. apply andb_true_iff in Hn. destruct Hn as [Hn1 Hn].
+    destruct e as [u0 k0|u0 ok|q|q x]; cbn [pv_step is_call negb] in *; try discriminate.
+    + rewrite Hc. apply IH; try assumption; cbn [pv_cand pv_est]; try reflexivity; assumption.
+    + apply IH; try assumption; cbn [pv_cand pv_est]; try reflexivity; assumption.
+    + destruct (pv_lookup q (pv_open p)) as [k1|]; [destruct (oname_eqb x (Some (canon k1))); [|left; reflexivity]|]; apply IH; assumption.
+Qed.
+
+Lemma phase4 t q k : forall p,
+  no_call t = true -> forallb (fun e => negb (starts q e)) t = true ->
+  pv_cand p = None -> pv_est p = Some k -> pv_lookup q (pv_open p) = Some k ->
+  pv_run p t = None \/ exists p', pv_run p t = Some p' /\ pv_lookup q (pv_open p') = Some k.
+Proof.
+  induction t as [|e r IH]; intros p Hn Hs Hc He Hl; cbn [pv_run].
+  - right. exists p. split; [reflexivity|exact Hl].
+  - cbn [no_call forallb] in Hn, Hs. apply andb_true_iff in Hn. destruct Hn as [Hn1 Hn]. apply andb_true_iff in Hs. destruct Hs as [Hs1 Hs].
+    destruct e as [u0 k0|u0 ok|q'|q' x]; cbn [pv_step is_call negb starts] in *; try discriminate.
+    + rewrite Hc. apply IH; try assumption; cbn [pv_cand pv_est pv_open]; try reflexivity; assumption.
+    + apply negb_true_iff in Hs1. rewrite He. apply IH; try assumption; cbn [pv_cand pv_est pv_open]; try reflexivity; try assumption.
+      cbn [pv_lookup]. rewrite Hs1. rewrite pv_lookup_filter, Hs1. exact Hl.
+    + destruct (pv_lookup q' (pv_open p)) as [k1|]; [destruct (oname_eqb x (Some (canon k1))); [|left; reflexivity]|]; apply IH; assumption.
+Qed.
+
+Lemma prop_violb_complete t1 u k t2 t3 q t4 x t5 :
+  pending_calls t1 [] = [] -> no_call t2 = true -> no_ret u t2 = true -> no_call t3 = true -> no_call t4 = true ->
+  forallb (fun e => negb (starts q e)) t4 = true -> x <> Some (canon k) ->
+  prop_violb (t1 ++ ECall u k :: t2 ++ ERet u true :: t3 ++ EStart q :: t4 ++ EFrame q x :: t5) = true.
+Proof.
+  intros H1 H2 Hr H3 H4 Hq Hx. unfold prop_violb.
+  rewrite pv_run_app. destruct (pv_run pv_init t1) as [p1|] eqn:R1; [|reflexivity].
+  pose proof (pv_run_pend t1 _ _ R1) as Hp1. cbn [pv_init pv_pend] in Hp1. rewrite H1 in Hp1.
+  cbn [pv_run pv_step]. rewrite Hp1.
+  set (p2 := mkPv [u] (Some (u, k)) None []).
+  rewrite pv_run_app.
+  destruct (phase2 t2 u k p2 H2 Hr eq_refl eq_refl eq_refl) as [E|[p3 [E [Hc3 [He3 Ho3]]]]]; rewrite E; [reflexivity|].
+  cbn [pv_run pv_step]. rewrite Hc3, Nat.eqb_refl.
+  set (p4 := mkPv _ None (Some k) (pv_open p3)).
+  rewrite pv_run_app.
+  destruct (phase3 t3 k p4 H3 eq_refl eq_refl) as [E3|[p5 [E3 [Hc5 He5]]]]; rewrite E3; [reflexivity|].
+  cbn [pv_run pv_step]. rewrite He5.
+  set (p6 := mkPv (pv_pend p5) (pv_cand p5) (Some k) _).
+  rewrite pv_run_app.
+  assert (Hl6 : pv_lookup q (pv_open p6) = Some k) by (subst p6; cbn [pv_open pv_lookup]; rewrite Nat.eqb_refl; reflexivity).
+  destruct (phase4 t4 q k p6 H4 Hq Hc5 eq_refl Hl6) as [E4|[p7 [E4 Hl7]]]; rewrite E4; [reflexivity|].
+  cbn [pv_run pv_step]. rewrite Hl7.
+  destruct (oname_eqb x (Some (canon k))) eqn:Ex; [apply oname_eqb_eq in Ex; contradiction|reflexivity].
+Qed.
+
+(* ---- the acknowledged keyspace after success, exactly ------------------------------------------------ *)
+
+
+Lemma eq_ci_canon_fst k raw : eq_ci (canon k) raw = true -> eq_ci (fst k) raw = true.
+Proof.
+  rewrite !eq_ci_iff. unfold canon. destruct (snd k); [tauto|].
+  rewrite map_map. intros H. rewrite <- H. apply map_ext. intros c. symmetry. apply to_lower_idem.
+Qed.
+
+(* the acknowledged keyspace after a successful call, exactly: with an honest server it is the canonical
+   name of the requested keyspace unless another keyspace whose name differs from the requested one only
+   in ASCII case, and whose canonical name is different, was ever used on that connection *)
+Lemma after_success_exact k0 ls1 s1 raw cs s2 ls2 s3 a c :
+  hrun (init k0) ls1 = Some s1 -> pending s1 = [] ->
+  valid_name raw -> step s1 (UseKeyspace raw cs) = Some s2 ->
+  no_use ls2 = true -> hrun s2 ls2 = Some s3 ->
+  In (unext s1, a) (log s3) -> a <> PAErr ->
+  ph s3 c = InPool -> alive s3 c = true ->
+  (forall k', In k' (told s3 c) -> eq_ci (fst k') raw = true -> canon k' = canon (raw, cs)) ->
+  wire s3 c = [] /\ acked s3 c = Some (canon (raw, cs)).
+Proof.
+  intros R1 Hp Hv S Hn R2 Hl Ha Hc Hal Hcase.
+  destruct (after_success k0 ls1 s1 raw cs s2 ls2 s3 a c (hrun_run _ _ _ R1) Hp Hv S Hn (hrun_run _ _ _ R2) Hl Ha Hc Hal) as [Hw Hm].
+  split; [exact Hw|].
+  assert (H3 : HInv s3).
+  { apply (hrun_inv ls2 s2 s3); [|exact R2]. apply (HInv_step s1 (UseKeyspace raw cs)); [|reflexivity|exact S].
+    apply (hrun_inv ls1 (init k0) s1 (HInv_init k0) R1). }
+  unfold matchesb in Hm. destruct (acked s3 c) as [n|] eqn:E; [|discriminate]. cbn [fst] in Hm.
+  destruct (h_ack s3 H3 c n E) as [k' [Hk' ->]].
+  rewrite (Hcase k' Hk' (eq_ci_canon_fst k' raw Hm)). reflexivity.
+Qed.
+
+(* in particular: no case issue at all when the names used on the connection are pairwise different
+   up to ASCII case or identical as verified names *)
+Lemma after_success_exact_simple k0 ls1 s1 raw cs s2 ls2 s3 a c :
+  hrun (init k0) ls1 = Some s1 -> pending s1 = [] ->
+  valid_name raw -> step s1 (UseKeyspace raw cs) = Some s2 ->
+  no_use ls2 = true -> hrun s2 ls2 = Some s3 ->
+  In (unext s1, a) (log s3) -> a <> PAErr ->
+  ph s3 c = InPool -> alive s3 c = true ->
+  (forall k', In k' (told s3 c) -> eq_ci (fst k') raw = true -> k' = (raw, cs)) ->
+  wire s3 c = [] /\ acked s3 c = Some (canon (raw, cs)).
+Proof.
+  intros R1 Hp Hv S Hn R2 Hl Ha Hc Hal Hcase.
+  eapply after_success_exact; try eassumption. intros k' Hk' He. rewrite (Hcase k' Hk' He). reflexivity.
+Qed.
